@@ -2333,3 +2333,101 @@ func ruleSizePrecedence(r *Run) {
 		fmt.Sprintf("%s: %s", shortName(fn), map[bool]string{true: "the explicit width-and-height rule is decided before the aspect-ratio flag is looked at", false: "KeepAspectRatio is consulted (" + bad + ") before the explicit width-and-height test: with both dimensions given and the flag set, one of the requested dimensions is ignored and re-derived from the pixel ratio"}[bad == ""]))
 	r.Count("aspect_flag_reads", len(flagLoads))
 }
+
+// ---------------------------------------------------------------------------
+// R-XML-OBJECT-TOTAL (C12): SetPageSettings describes the WHOLE page set-up.  Each section XML
+// object it writes (pgSz, pgMar, docGrid) must therefore either be a freshly built value, or have
+// every one of its attributes assigned together.  Updating an existing object in place and
+// assigning some attribute only under a condition ("only when > 0", "only for landscape") leaves
+// the previous value behind: a later call cannot reset it, and what is read back is not what was
+// set last.
+// ---------------------------------------------------------------------------
+
+func ruleXMLObjectTotal(r *Run) {
+	p := r.P
+	setFn := r.mustFunc(pkgDoc, "(*Document).SetPageSettings")
+	if setFn == nil {
+		return
+	}
+	owners := map[string]bool{"PageSizeXML": true, "PageMargin": true, "DocGrid": true}
+	type site struct {
+		st    *ssa.Store
+		fv    *types.Var
+		fresh bool
+	}
+	byOwner := map[string][]site{}
+	forEachInstr(helperGroup(p, setFn), func(in ssa.Instruction) {
+		st, ok := in.(*ssa.Store)
+		if !ok {
+			return
+		}
+		fv, base := fieldOfAddr(st.Addr)
+		if fv == nil {
+			return
+		}
+		o := fieldOwner(p, fv)
+		if o == nil || !owners[o.Obj().Name()] {
+			return
+		}
+		_, fresh := stripLoads(base).(*ssa.Alloc)
+		if _, isAllocDirect := base.(*ssa.Alloc); isAllocDirect {
+			fresh = true
+		}
+		// `sectPr.DocGrid = &DocGrid{…}` … `sectPr.DocGrid.CharSpace = …`: the pointer is re-loaded,
+		// but a store of a fresh object to the same path dominates this store
+		if ld, ok := base.(*ssa.UnOp); ok && !fresh {
+			path := pathString(ld.X)
+			allInstrs(st.Parent(), func(in2 ssa.Instruction) {
+				st2, ok := in2.(*ssa.Store)
+				if !ok || pathString(st2.Addr) != path {
+					return
+				}
+				if _, isNew := st2.Val.(*ssa.Alloc); !isNew {
+					return
+				}
+				if st2.Block() == st.Block() && instrIndex(st2) < instrIndex(st) || st2.Block() != st.Block() && st2.Block().Dominates(st.Block()) {
+					fresh = true
+				}
+			})
+		}
+		byOwner[o.Obj().Name()] = append(byOwner[o.Obj().Name()], site{st, fv, fresh})
+	})
+	n := 0
+	for _, on := range []string{"DocGrid", "PageMargin", "PageSizeXML"} {
+		sites := byOwner[on]
+		if len(sites) == 0 {
+			continue
+		}
+		n++
+		named := p.Named(pkgDoc, on)
+		stt := named.Underlying().(*types.Struct)
+		bad := ""
+		for _, s := range sites {
+			if s.fresh {
+				// a field of a freshly built object assigned later under a condition is fine only if the
+				// object itself was built on that very path: the zero value is the "unset" value
+				continue
+			}
+			// in-place update of an object that may already exist: all attributes must be assigned in
+			// the same block
+			inBlock := map[*types.Var]bool{}
+			for _, s2 := range sites {
+				if s2.st.Block() == s.st.Block() && !s2.fresh {
+					inBlock[s2.fv] = true
+				}
+			}
+			for i := 0; i < stt.NumFields(); i++ {
+				f := stt.Field(i)
+				if f.Name() == "XMLName" {
+					continue
+				}
+				if !inBlock[f] {
+					bad = fmt.Sprintf("the %s object is updated in place (%s) and its attribute %s is not assigned together with the others", on, p.pos(s.st.Pos()), f.Name())
+				}
+			}
+		}
+		r.Check("xml-object-total", on, sites[0].st.Pos(), bad == "",
+			fmt.Sprintf("section XML object %s: %s", on, map[bool]string{true: "built afresh (or every attribute assigned together) on each SetPageSettings", false: bad + ": a value written by an earlier call survives a later call that should have replaced it"}[bad == ""]))
+	}
+	r.Min("section_xml_objects_written", n, 3)
+}
